@@ -220,6 +220,20 @@ Section SimSave.
       + unfold no_comma. apply negb_true_iff. apply memb_strip. eapply split_on_pieces. eassumption.
   Qed.
 
+  (* an unset comma list whose config/defaults line is d reads as the elements of d *)
+  Lemma synced_comma_default_at st vals cn d :
+    comma_text_ok d = true ->
+    dget cn (m_config st) = Some (CList true (map AStr (split_comma d))) ->
+    nonempty_values vals = [] -> default_lines defaults cn = [d] ->
+    synced_at defaults st vals cn KComma.
+  Proof.
+    intros Hok Hc Hne Hd.
+    destruct (synced_comma_text_at st [d] cn d Hok Hc eq_refl) as [_ H2].
+    split; [|exact H2].
+    unfold view_of. rewrite Hc. cbn [rval_of_gotten]. rewrite map_atom_text_AStr.
+    unfold typed_value. rewrite Hne, Hd. cbn [map concat]. now rewrite app_nil_r.
+  Qed.
+
   Lemma synced_comma_text st store_ cn s :
     comma_text_ok s = true ->
     dget cn (m_config st) = Some (CList true (map AStr (split_comma s))) ->
@@ -264,7 +278,7 @@ Section SimSave.
        exists value nv, resolve st k u = Some value /\ saved_value st k value = Some nv /\
                         dget k (m_config sl) = Some nv /\ dget k (m_unsaved sl) = Some (pending_after value)) /\
     (forall k, ~ In k (map fst (m_unsaved st)) -> dget k (m_config sl) = dget k (m_config st)) /\
-    m_parsers sl = m_parsers st /\ m_defaults sl = m_defaults st.
+    m_parsers sl = m_parsers st /\ m_defaults sl = m_defaults st /\ m_listp sl = m_listp st.
 
   (* config[cn] after the loop, for a pending option *)
   Lemma loop_config st m sl cn iv k :
@@ -308,10 +322,10 @@ Section SimSave.
     Rel st m -> loop_facts st sl -> has_empty_list (s_pend (m_st m)) = false ->
     Rel (with_unsaved sl [])
         {| m_st := {| s_store := apply_entries opts (s_store (m_st m)) (pend_entries (s_pend (m_st m))); s_pend := [] |};
-           m_det := []; m_f1 := false; m_f2 := false; m_f3 := false |}.
+           m_det := []; m_f1 := false; m_f3 := false |}.
   Proof.
-    intros R LF He. pose proof LF as [A [B [HP HD]]].
-    constructor; cbn [m_st m_det m_f1 m_f2 m_f3 s_store s_pend with_unsaved m_parsers m_config m_defaults m_unsaved]; auto.
+    intros R LF He. pose proof LF as [A [B [HP [HD HL]]]].
+    constructor; cbn [m_st m_det m_f1 m_f3 s_store s_pend with_unsaved m_parsers m_config m_defaults m_unsaved]; auto.
     - rewrite HP. exact (r_pkeys _ _ _ _ R).
     - intros cn k Hin. rewrite HP. exact (r_ptys _ _ _ _ R _ _ Hin).
     - intros cn k Hin. eapply cfg_after_loop; eassumption.
@@ -373,16 +387,17 @@ Section SimSave.
         * now rewrite HD.
     - intros cn iv Hp. discriminate.
     - constructor.
+    - intros cn k Hin. cbn [with_unsaved m_listp]. rewrite HL. exact (r_listp _ _ _ _ R _ _ Hin).
   Qed.
 
   (* ---- Tor rejected ---- *)
   Lemma rel_after_reject st m sl :
     Rel st m -> loop_facts st sl -> map fst (m_unsaved sl) = map fst (m_unsaved st) ->
     has_empty_list (s_pend (m_st m)) = false ->
-    Rel sl {| m_st := m_st m; m_det := scalar_keys (s_pend (m_st m)); m_f1 := false; m_f2 := false; m_f3 := false |}.
+    Rel sl {| m_st := m_st m; m_det := scalar_keys (s_pend (m_st m)); m_f1 := false; m_f3 := false |}.
   Proof.
-    intros R LF Hkeys He. pose proof LF as [A [B [HP HD]]].
-    constructor; cbn [m_st m_det m_f1 m_f2 m_f3]; auto.
+    intros R LF Hkeys He. pose proof LF as [A [B [HP [HD HL]]]].
+    constructor; cbn [m_st m_det m_f1 m_f3]; auto.
     - rewrite HP. exact (r_pkeys _ _ _ _ R).
     - intros cn k Hin. rewrite HP. exact (r_ptys _ _ _ _ R _ _ Hin).
     - intros cn k Hin. eapply cfg_after_loop; eassumption.
@@ -405,6 +420,7 @@ Section SimSave.
       + destruct Hlc as [Hc Hus]. destruct Hpr as [Hlk [Hf _]]. split; [assumption|]. split; [assumption|]. left. auto.
     - rewrite Hkeys. exact (r_ukeys _ _ _ _ R).
     - rewrite Hkeys. exact (r_nodup _ _ _ _ R).
+    - intros cn k Hin. rewrite HL. exact (r_listp _ _ _ _ R _ _ Hin).
   Qed.
 
   (* ---- the operation ---- *)
@@ -418,7 +434,7 @@ Section SimSave.
     destruct (m_save st rej) as [[[s1 wrote] r]|] eqn:ES; [|discriminate].
     destruct (m_snapshot s1 names) as [[s2 snap]|] eqn:ESn; [|discriminate].
     inversion H. subst st' ob. clear H.
-    destruct (r_clean _ _ _ _ R) as [C1 [C2 C3]].
+    destruct (r_clean _ _ _ _ R) as [C1 C3].
     unfold step_ok. cbn [spec_check mon_step o_wrote o_res] in *.
     pose proof (r_ukeys _ _ _ _ R) as Hk.
     destruct (s_pend (m_st m)) as [|p0 pend0] eqn:Ep.
@@ -435,7 +451,7 @@ Section SimSave.
       destruct (save_loop st (m_unsaved st) []) as [[sl args]|e|] eqn:EL; try discriminate.
       pose proof (r_nodup _ _ _ _ R) as Hwf.
       destruct (save_loop_whole st sl args Hwf EL) as [Hargs [Hkeys _]]. subst args.
-      destruct (save_loop_effect_whole st sl _ Hwf EL) as [A [B [HP [HD _]]]].
+      destruct (save_loop_effect_whole st sl _ Hwf EL) as [A [B [HP [HD HL]]]].
       assert (loop_facts st sl) as LF by (repeat split; assumption).
       rewrite (args_keys_ok _ _ R Hf1) in ES.
       assert (parse_setconf (setconf_line (pending_args st)) = Some (pend_entries (s_pend (m_st m)))) as Hparse.
@@ -451,7 +467,7 @@ Section SimSave.
           assert (match m_unsaved sl with [] => false | _ :: _ => true end = true) as ->.
           { destruct (m_unsaved sl); [rewrite EU in Hkeys; discriminate|reflexivity]. }
           rewrite N.eqb_refl. cbn [andb]. exact Hok'.
-        * rewrite ?C1, ?C2, ?C3, ?Hf1. cbn [orb spec_next]. exact R'.
+        * rewrite ?C1, ?C3, ?Hf1. cbn [orb spec_next]. exact R'.
       + (* acknowledged *)
         inversion ES. subst s1 wrote r.
         pose proof (rel_after_accept _ _ _ R LF Hf1) as R'.
@@ -459,6 +475,6 @@ Section SimSave.
         rewrite <- names_eq, ESn in Hs. inversion Hs. subst s2 snap'.
         split.
         * rewrite Hparse, (entries_match_self _ (pend_nodup_ci _ _ R)). cbn [andb with_unsaved m_unsaved]. exact Hok'.
-        * rewrite ?C1, ?C2, ?C3, ?Hf1. cbn [orb spec_next]. exact R'.
+        * rewrite ?C1, ?C3, ?Hf1. cbn [orb spec_next]. exact R'.
   Qed.
 End SimSave.
